@@ -921,6 +921,10 @@ pub enum MergeKind {
     /// Values joined with a 0x1F separator: associative, returns a lone value unchanged, and —
     /// unlike concatenation — shows where an empty value stands among the others.
     Join,
+    /// For keys held by two or more sources: a BORROWED proper prefix (the first half) of the first
+    /// value — a slice that starts where an input starts but is shorter. A lone value is returned
+    /// unchanged. Not associative: used for single-level merges (the merger), never for the sorter.
+    BorrowedPrefix,
 }
 
 #[derive(Clone)]
@@ -954,6 +958,16 @@ impl grenad::MergeFunction for SimMerge {
             }
             MergeKind::First => values[0].clone(),
             MergeKind::Last => values[values.len() - 1].clone(),
+            MergeKind::BorrowedPrefix => {
+                if values.len() == 1 {
+                    values[0].clone()
+                } else {
+                    match &values[0] {
+                        Cow::Borrowed(s) => Cow::Borrowed(&s[..s.len() / 2]),
+                        Cow::Owned(v) => Cow::Owned(v[..v.len() / 2].to_vec()),
+                    }
+                }
+            }
             MergeKind::Join => {
                 if values.len() == 1 {
                     values[0].clone()
